@@ -17,7 +17,7 @@ pub fn def() -> PropDef {
     PropDef {
         id: "C09",
         level: "exploration",
-        rule: "cases = generated sexp! invocations: random trees of depth <= 5 over the documented syntax -- i32 integers and floats with a fraction (optionally negative), strings, Rust character literals, #t #f #nil, identifier symbols, #\"...\" symbols, punctuation-only symbols (+ - * / < <= => -> ... ! $ % & : ? @ ^ ~ and multi-character joins) at first/middle/last/after-dot positions and inside vectors, keywords as #:name, :name and #:\"...\", proper lists, dotted lists whose tail is an atom, a list or a dotted list (flattening), vectors, and unquotes of every From type (also as dotted tail). Each invocation is compiled in a generated crate against /repo/lexpr (feature sexp-macro) and compared at run time with lexpr::from_str of the equivalent text (unquotes substituted by Value::from(expr)). non-trivial = one compiled invocation compared; distinct = hash of the invocation source",
+        rule: "cases = generated sexp! invocations: random trees of depth <= 5 over the documented syntax -- i32 integers and floats with a fraction (optionally negative), strings, Rust character literals, #t #f #nil, identifier symbols, #\"...\" symbols, punctuation-only symbols (+ - * / < <= => -> ... ! $ % & : ? @ ^ ~ and multi-character joins) at first/middle/last/after-dot positions and inside vectors, keywords as #:name, :name and #:\"...\", proper lists, dotted lists whose tail is an atom, a list or a dotted list (flattening), vectors, and unquotes of every From type (also as dotted tail); plus, deterministically, 20 caller variables with names an expansion might use for its own locals (tail, head, list, items, vec, value, ...) in every unquote position of 10 compound shapes. Each invocation is compiled in a generated crate against /repo/lexpr (feature sexp-macro) and compared at run time with lexpr::from_str of the equivalent text (unquotes substituted by Value::from(expr)). non-trivial = one compiled invocation compared; distinct = hash of the invocation source",
         assumptions: &["rustc/cargo of the default toolchain compile the generated crate offline", "the harness's rendering of the 'equivalent text' is the documented correspondence (e.g. :name and #:\"name\" correspond to #:name)"],
         nofast_too: false,
         min_quick: 300,
@@ -466,6 +466,34 @@ fn run_all(rep: &mut Report, ctx_seed: u64, n: usize, thorough: bool) {
         let mut kinds = Vec::new();
         atom_kinds(&t, &mut kinds);
         invs.push(Inv { macro_src: m, text: x, hazards: hz, kinds });
+    }
+    // directed: every hygiene-prone caller variable in every unquote position of every
+    // compound shape, next to a second unquote (the shapes for which an expansion
+    // might introduce locals)
+    for k in 24..UNQUOTES.len() {
+        let n = |paren: bool| T::Unquote(k, paren);
+        let other = |j: usize| T::Unquote(j, j > 12);
+        let sym = || T::Sym("b".to_string());
+        let shapes: Vec<T> = vec![
+            T::Dotted(vec![n(true), sym()], Box::new(other(2))),
+            T::Dotted(vec![sym(), n(false)], Box::new(other(4))),
+            T::Dotted(vec![sym()], Box::new(n(false))),
+            T::Dotted(vec![other(13), n(true)], Box::new(n(false))),
+            T::Dotted(vec![T::List(vec![n(false)])], Box::new(other(0))),
+            T::List(vec![n(false), other(2)]),
+            T::List(vec![other(12), n(true), sym()]),
+            T::Vector(vec![n(false), other(3)]),
+            T::Vector(vec![T::Dotted(vec![n(false)], Box::new(other(1)))]),
+            T::List(vec![T::Vector(vec![other(2)]), n(false)]),
+        ];
+        for t in shapes {
+            let (mut m, mut x) = (String::new(), String::new());
+            macro_src(&t, &mut m);
+            text_src(&t, &mut x);
+            let mut kinds = Vec::new();
+            atom_kinds(&t, &mut kinds);
+            invs.push(Inv { macro_src: m, text: x, hazards: Vec::new(), kinds });
+        }
     }
     let mut skip: std::collections::HashSet<usize> = Default::default();
     let mut built = false;
